@@ -3,6 +3,9 @@ package props
 import (
 	"encoding/json"
 	"fmt"
+	"os"
+	"os/exec"
+	"path/filepath"
 	"strings"
 
 	"pault.ag/go/debian/dependency"
@@ -32,6 +35,9 @@ func (c04) Batches(tier string, seed uint64) []core.Batch {
 	b = append(b, spread("shape", 6, 0)...)
 	b = append(b, spread("rand", 16, tierN(tier, 2500, 12000))...)
 	b = append(b, spread("malformed", 4, tierN(tier, 1500, 6000))...)
+	if tier == "thorough" {
+		b = append(b, spread("dpkg-legality", 4, 1500)...)
+	}
 	return b
 }
 
@@ -179,6 +185,8 @@ func (p c04) RunBatch(t *core.T, b core.Batch) {
 			}
 			p.emit(t, d, sp, used, r.Chance(1, 6))
 		}
+	case "dpkg-legality":
+		p.dpkgLegality(t, r, b)
 	case "malformed":
 		for i := 0; i < b.N; i++ {
 			for _, m := range p.malform(r) {
@@ -187,6 +195,66 @@ func (p c04) RunBatch(t *core.T, b core.Batch) {
 			}
 		}
 	}
+}
+
+const perlDeps = `use Dpkg::Deps; $|=1;
+while (<STDIN>) { chomp; s/\\n/\n/g; s/\\t/\t/g; my $d = eval { deps_parse($_, build_dep=>1, reduce_arch=>0, reduce_restrictions=>0, use_arch=>1, use_profiles=>1) }; print defined($d) ? "ok\n" : "rejected\n"; }`
+
+// dpkgLegality (thorough): generator self-check. Renderings in dpkg's canonical group order
+// (version, architectures, profiles; substvars replaced by plain names) with the harness's random
+// spacing are fed to Dpkg::Deps::deps_parse; dpkg rejecting a rendering the generator calls legal
+// makes the run INCONCLUSIVE (the oracle, not the library, is in doubt).
+func (p c04) dpkgLegality(t *core.T, r *core.Rand, b core.Batch) {
+	if !have("perl") || exec.Command("perl", "-MDpkg::Deps", "-e", "1").Run() != nil {
+		t.Cover("dpkg-legality:Dpkg::Deps-unavailable")
+		return
+	}
+	var lines []string
+	for i := 0; i < b.N; i++ {
+		d := gen.Dep(r, 4, 3, true)
+		for ri := range d {
+			for pi := range d[ri] {
+				ps := &d[ri][pi]
+				if ps.Substvar {
+					*ps = model.MPoss{Name: "substvar-replaced"}
+				}
+				ps.GroupOrder = ""
+				ps.Normalise()
+				if len(ps.Name) > 60 { // dpkg has no length limit, but keep lines readable
+					ps.Name = ps.Name[:60] + "x"
+				}
+				for k := range ps.Archs { // dpkg only knows real Debian architectures and wildcards
+					ps.Archs[k] = []string{"amd64", "i386", "linux-any", "any-amd64", "kfreebsd-any", "arm64"}[(k+pi)%6]
+				}
+				if ps.Qual != "" {
+					ps.Qual = []string{"any", "native", "amd64"}[pi%3]
+				}
+			}
+		}
+		text := d.Render(gen.RandomSpacer(r, nil), false)
+		lines = append(lines, strings.NewReplacer("\n", "\\n", "\t", "\\t").Replace(text))
+	}
+	script := filepath.Join(t.WorkDir, "deps.pl")
+	os.WriteFile(script, []byte(perlDeps), 0o644)
+	t.Case("dpkg-legality", []byte(fmt.Sprintf("batch %d", b.Arg)), func(c *core.C) {
+		cmd := exec.Command("perl", script)
+		cmd.Stdin = strings.NewReader(strings.Join(lines, "\n") + "\n")
+		out, err := cmd.Output()
+		res := strings.Split(strings.TrimSpace(string(out)), "\n")
+		if err != nil || len(res) != len(lines) {
+			c.Cover("dpkg-legality:perl-run-failed")
+			return
+		}
+		for i, l := range res {
+			t.Light(1)
+			if l == "ok" {
+				c.Cover("dpkg-legality:accepted-by-Dpkg::Deps")
+			} else {
+				c.Cover("~inconclusive:Dpkg::Deps rejects a rendering the generator calls legal (generator self-check)")
+				t.AddSample("dpkg-rejected", lines[i], "")
+			}
+		}
+	})
 }
 
 // c04Shapes: every presence subset x every group order for one possibility.
